@@ -708,9 +708,36 @@ def decode(x):
   return x
 
 
+WARMED = set()
+
+
+def warm(engines):
+  """The process has compiled programs for other engines before (a notebook that talks to several
+  databases): whatever those compiles leave behind must not reach the SQLite templates."""
+  m = lrun.mods()
+  for eng in engines:
+    if eng in WARMED:
+      continue
+    WARMED.add(eng)
+    text = ('@Engine("%s");\nD(1, "a"); D(2, "b");\n'
+            'W(x, ArrayConcat([x], [x + 1]), Size([x]), ToString(x) ++ y, Least(x, 2), Greatest(x, 2)) :- D(x, y);\n'
+            'V() List= x :- D(x, y);\nU(Sort([2, 1]), Join(["a"], "-"), Range(2)) :- D(x, y), x in [1, 2];\n' % eng)
+    with lrun.muted():
+      try:
+        prog = m.universe.LogicaProgram(m.parse.ParseFile(text)['rule'])
+        for p_ in ('W', 'V', 'U'):
+          try:
+            prog.FormattedPredicateSql(p_)
+          except Exception:
+            pass      # a built-in the dialect lacks: still a compile that ran
+      except Exception:
+        pass
+
+
 def run_l2(case, scratch):
   dbpath = os.path.join(scratch, 'agg-%s.db' % core.digest(case)[:12])
   vs = []
+  warm(case.get('warm') or [])
   try:
     if case['mode'] == 'table':
       make_table(dbpath, case['rows'], case.get('index'), case.get('split'))
@@ -899,9 +926,15 @@ def run_batch(seed, batch, tier, scratch):
     log.add('L1', core.digest(cases[0]['groups'])[:16], len(cases), results)
     if len(S.samples) < 1 and cases and len(cases[0]['groups']) > 1:
       S.samples.append(cases[0])
+  rw = core.rng(seed, PROPERTY, 'warm', batch)
+  warm_engines = rw.choice([[], [], ['psql'], ['trino'], ['clickhouse', 'psql'], ['bigquery'], ['duckdb'], ['databricks'], ['presto', 'trino']])
+  if warm_engines:
+    S.probes['L2_process_compiled_for_other_engines_before'] += 1
   for i in range(pl['l2_workloads']):
     r = core.rng(seed, PROPERTY, 'L2', batch, i)
     for case in l2_cases(r, tier):
+      if warm_engines:
+        case['warm'] = warm_engines
       vs = run_l2(case, scratch)
       S.runs += 1
       S.counters['L2:mode:' + case['mode']] += 1
